@@ -8,10 +8,15 @@ export VERIF_EVIDENCE_DIR=/tmp/confirm-evidence
 for id in $ids; do
   d=/verif/seeded/$id; prop=$(python3 -c "import json;print(json.load(open('$d/meta.json'))['breaks_property'])")
   if [ -n "$(git -C /repo status --porcelain --untracked-files=no)" ]; then echo "/repo not clean"; exit 3; fi
-  if ! git -C /repo apply --check $d/patch.diff 2>/dev/null; then
+  patch=$d/patch.diff
+  if ! git -C /repo apply --check $patch 2>/dev/null; then
+     alt=$(ls $d/patch-ported-*.diff 2>/dev/null | head -1)
+     [ -n "$alt" ] && patch=$alt
+  fi
+  if ! git -C /repo apply --check $patch 2>/dev/null; then
      res="patch does not apply on current HEAD (made against its base_commit)"; classes=""
   else
-     git -C /repo apply $d/patch.diff
+     git -C /repo apply $patch
      out=$(./check $prop quick 2>&1); rc=$?
      git -C /repo checkout -- .
      classes=$(printf '%s\n' "$out" | grep '^  class' | head -3 | cut -c1-260)
